@@ -5,8 +5,9 @@ sys.path[:0] = ["/verif/harness", "/verif"]
 IDS = [f"C{i:02d}" for i in range(1, 21)]
 NOT_BUILT = "check not built yet (work in progress; DESIGN.md section 5 gives the planned Coq model and theorems)"
 checks, na = [], []
+CLAIMED = set(open("/verif/tools/claimed.txt").read().split())   # properties whose check is finished and reviewed
 for pid in IDS:
-    if not os.path.exists(f"/verif/harness/props/{pid}.py"):
+    if pid not in CLAIMED or not os.path.exists(f"/verif/harness/props/{pid}.py"):
         na.append({"property_id": pid, "reason": NOT_BUILT}); continue
     m = importlib.import_module(f"props.{pid}")
     meta = getattr(m, "MANIFEST", None)
